@@ -39,7 +39,8 @@ RULE = ("Histories of 20-60 calls drawn from encode / decode / repair_dna / set_
         "before/after (arc removal excepted), the same call on write-protected copies gives the same result and never writes, "
         "module globals unchanged, numpy RNG state unchanged except by the two randomised calls, no audit events; verbose=True "
         "gives the same result or the same exception type; a fresh interpreter gives the same result for the recorded "
-        "arguments (and seed). Non-trivial: the history holds >= 3 distinct operations; distinct = hash of the history.")
+        "arguments (and seed). Non-trivial: the history holds >= 3 distinct operations; distinct = hash of the history."
+        ' Also: every call repeated after its returned object was scrambled in place, in-place edits of the shared accessor / latter map / mask / table by the harness between calls, objects handed back by the library adopted as shared arguments, removal bursts and strip runs (arc removal until it raises), parameters drawn from small pools, histories at order 6 on the cheap operations; the write-protected and verbose twins run as a pass of their own after the history.')
 
 NUC = "ACGT"
 STEP_BUDGET = 300000  # loop iterations per call (deterministic logical clock, same in the fresh interpreter)
